@@ -253,4 +253,153 @@ def k4(ctx, kr):
     kr.exhaustive = True
     kr.outside = ['rules and templates without two independent POUs; more than one exchange']
 
-KERNELS = [k1, k2, k3, k4]
+
+# ---------------------------------------------------------------------------------------------- K5 whole analysis: verdict, code and location under every order, partition and tie-break
+_E = 'TYPE\n  level : (info, critical) := info;\nEND_TYPE\n'
+UNITS = {
+    # name: list of top-level declarations (each a complete text); single-fault units have exactly one violated rule
+    'struct_with_enum_default': [_E, 'TYPE\n  rec : STRUCT\n    lvl : level := critical;\n    n : INT;\n  END_STRUCT;\nEND_TYPE\n'],
+    'struct_with_bad_enum_default': [_E, 'TYPE\n  rec : STRUCT\n    lvl : level := warning;\n  END_STRUCT;\nEND_TYPE\n'],
+    'fb_var_with_enum_default': [_E, 'FUNCTION_BLOCK logger\nVAR_INPUT\n  lvl : level := critical;\nEND_VAR\nEND_FUNCTION_BLOCK\n'],
+    'fb_var_with_bad_enum_default': [_E, 'FUNCTION_BLOCK logger\nVAR_INPUT\n  lvl : level := warning;\nEND_VAR\nEND_FUNCTION_BLOCK\n'],
+    'enum_alias_chain': [_E, 'TYPE\n  lvl2 : level;\nEND_TYPE\n', 'FUNCTION_BLOCK logger\nVAR\n  v : lvl2 := critical;\nEND_VAR\nEND_FUNCTION_BLOCK\n'],
+    'fb_call': ['FUNCTION_BLOCK callee\nVAR_INPUT\n  in1 : BOOL;\nEND_VAR\nEND_FUNCTION_BLOCK\n', 'FUNCTION_BLOCK caller\nVAR\n  inst : callee;\nEND_VAR\n  inst(in1 := TRUE);\nEND_FUNCTION_BLOCK\n',
+                'PROGRAM main\nVAR\n  c : caller;\nEND_VAR\n  c();\nEND_PROGRAM\n'],
+    'fb_call_bad_input': ['FUNCTION_BLOCK callee\nVAR_INPUT\n  in1 : BOOL;\nEND_VAR\nEND_FUNCTION_BLOCK\n', 'FUNCTION_BLOCK caller\nVAR\n  inst : callee;\nEND_VAR\n  inst(zz := TRUE);\nEND_FUNCTION_BLOCK\n'],
+    'struct_and_alias': ['TYPE\n  point : STRUCT\n    x : INT;\n    y : INT;\n  END_STRUCT;\nEND_TYPE\n', 'TYPE\n  pt : point;\nEND_TYPE\n', 'FUNCTION_BLOCK fb\nVAR\n  p : pt;\nEND_VAR\nEND_FUNCTION_BLOCK\n'],
+    'configuration': ['CONFIGURATION cfg\n  VAR_GLOBAL CONSTANT\n    g : INT := 1;\n  END_VAR\n  RESOURCE res ON PLC\n    TASK tsk(INTERVAL := T#100ms, PRIORITY := 1);\n    PROGRAM inst WITH tsk : prog;\n  END_RESOURCE\nEND_CONFIGURATION\n',
+                      'PROGRAM prog\nVAR_EXTERNAL CONSTANT\n  g : INT;\nEND_VAR\nEND_PROGRAM\n'],
+    'configuration_external_not_constant': ['CONFIGURATION cfg\n  VAR_GLOBAL CONSTANT\n    g : INT := 1;\n  END_VAR\n  RESOURCE res ON PLC\n    TASK tsk(INTERVAL := T#100ms, PRIORITY := 1);\n    PROGRAM inst WITH tsk : prog;\n  END_RESOURCE\nEND_CONFIGURATION\n',
+                      'PROGRAM prog\nVAR_EXTERNAL\n  g : INT;\nEND_VAR\nEND_PROGRAM\n'],
+    'subrange_user': ['TYPE\n  rng : INT(1..10);\nEND_TYPE\n', 'FUNCTION_BLOCK fb\nVAR\n  r : rng;\nEND_VAR\nEND_FUNCTION_BLOCK\n'],
+    'duplicate_struct_element': ['TYPE\n  rec : STRUCT\n    a : INT;\n    a : BOOL;\n  END_STRUCT;\nEND_TYPE\n', _E],
+    'undeclared_variable': ['FUNCTION_BLOCK one\nVAR\n  a : INT;\nEND_VAR\n  a := 1;\nEND_FUNCTION_BLOCK\n', 'FUNCTION_BLOCK two\nVAR\n  b : INT;\nEND_VAR\n  a := 2;\nEND_FUNCTION_BLOCK\n'],
+    'recursive_fb': ['FUNCTION_BLOCK a\nVAR\n  x : b;\nEND_VAR\nEND_FUNCTION_BLOCK\n', 'FUNCTION_BLOCK b\nVAR\n  y : a;\nEND_VAR\nEND_FUNCTION_BLOCK\n'],
+    'function_and_caller': ['FUNCTION twice : INT\nVAR_INPUT\n  v : INT;\nEND_VAR\n  twice := v * 2;\nEND_FUNCTION\n', 'PROGRAM main\nVAR\n  r : INT;\nEND_VAR\n  r := twice(v := 2);\nEND_PROGRAM\n'],
+    'array_of_named_type': [_E, 'TYPE\n  levels : ARRAY[1..3] OF level;\nEND_TYPE\n', 'FUNCTION_BLOCK fb\nVAR\n  l : levels;\nEND_VAR\nEND_FUNCTION_BLOCK\n'],
+}
+# a reference cycle has no single location: any declaration on the cycle may carry the label, so only verdict and code are compared there
+CODE_ONLY_UNITS = {'recursive_fb'}
+QUICK_UNITS = ['struct_with_enum_default', 'struct_with_bad_enum_default', 'fb_var_with_bad_enum_default', 'enum_alias_chain', 'fb_call_bad_input', 'configuration_external_not_constant', 'undeclared_variable', 'struct_and_alias']
+
+def _splits(k):
+    """file index per position: one file, or two files split after position i"""
+    return [tuple([0] * k)] + [tuple([0] * i + [1] * (k - i)) for i in range(1, k)]
+
+def _k5_job(job):
+    uname, perm, split = job
+    from . import C10 as K10, tplcommon as TP, C02 as K02
+    ctx = _CTX; part = Part(); part.verdicts = {}; part.uname = uname
+    decls = UNITS[uname]
+    P = ctx.program()
+    k_parse = P.find_fn('ironplc-parser', 'parse_program'); k_an = P.find_fn('ironplc-analyzer', 'stages::analyze')
+    k_opt = TP.parse_opts(P)
+    holder = {}; st = {}
+    M = Machine(P, stubs=K10.dyn_lexer_stubs(ctx, holder), max_steps=800_000_000)      # toposort tie-breaks stay nondeterministic: every order petgraph may return is a path
+    files = [''.join(decls[perm[pos]] for pos in range(len(perm)) if split[pos] == f) for f in range(max(split) + 1)]
+    def entry(M):
+        libs = []
+        for i, text in enumerate(files):
+            fid = Ref(Cell(Agg('FileId', [Str('f%d.st' % i)])))
+            opts = Ref(Cell(M.call_fn(k_opt[0], []) if k_opt else Agg('ParseOptions', [False])))
+            r = M.call_fn(k_parse, [Ref(Cell(Str(text))), fid, opts])
+            if r.disc != 0: return ('rejected', None)
+            libs.append(Ref(Cell(r.f[0])))
+        a = M.call_fn(k_an, [Ref(Cell(VecV(libs)))])
+        if a.disc == 0: return ('ok', ())
+        out = []
+        for d in a.f[0].items:
+            d = M.deref(d) if isinstance(d, Ref) else d
+            c = M.deref(d.f[0]); code = K02._code_of(P, re.sub(r'^code:', '', c.conc() if isinstance(c, Str) else '?'))
+            lb = _find_label(M, d) if uname not in CODE_ONLY_UNITS else None
+            lab = None
+            if lb is not None:
+                loc = M.deref(lb.f[0]) if isinstance(lb.f[0], Ref) else lb.f[0]
+                a0, a1 = simp(loc.f[0]), simp(loc.f[1]); fname = None
+                stack = [lb.f[1]]
+                while stack:
+                    x = stack.pop()
+                    if isinstance(x, Ref): x = M.deref(x)
+                    if isinstance(x, Str): fname = x.conc(); break
+                    if isinstance(x, (Agg, EnumV)): stack.extend(x.f)
+                src = files[int(fname[1:-3])] if fname and re.fullmatch(r'f\d+\.st', fname) else None
+                lab = src.encode()[a0:a1].decode('utf-8', 'replace') if (src is not None and isinstance(a0, int) and isinstance(a1, int)) else '?'
+            out.append((code, lab))
+        return ('diagnosed', tuple(sorted(out, key=str)))
+    def on_path(M, pr):
+        part.paths += 1
+        if pr.inconclusive: part.inconc('%s: %s' % (uname, pr.inconclusive)); return
+        if pr.panic: part.inconc('%s: panic (C04): %s' % (uname, pr.panic.msg[:60])); return
+        part.nontrivial += 1
+        kind, v = pr.result
+        if kind == 'rejected': part.inconc('%s: a declaration of the unit does not parse' % uname); return
+        part.verdicts.setdefault(v, (perm, split, files))
+    M.explore(entry, on_path)
+    part.queries += M.stats['smt']; part.encoded = set(M.encoded); part.models = set(M.models_used)
+    return part
+
+def _find_label(M, d):
+    """the primary label of a Diagnostic: the first Label aggregate in field order"""
+    stack = [d]
+    while stack:
+        v = stack.pop()
+        if isinstance(v, Agg) and re.sub(r'<.*', '', v.name).split('::')[-1] == 'Label': return v
+        if isinstance(v, (Agg, EnumV)): stack.extend(reversed(v.f))
+        elif isinstance(v, VecV): stack.extend(reversed(v.items))
+        elif isinstance(v, Ref): stack.append(M.get(v.cell, v.path))
+    return None
+
+@replay_factory('order_units')
+def _replay_order_units(uname):
+    def rp(ctx):
+        decls = UNITS[uname]; k = len(decls); seen = {}
+        cmds = []; keys = []
+        for perm in itertools.permutations(range(k)):
+            for split in _splits(k):
+                files = [''.join(decls[perm[pos]] for pos in range(k) if split[pos] == f) for f in range(max(split) + 1)]
+                for fo in ([files, files[::-1]] if len(files) > 1 else [files]):
+                    cmds.append({'cmd': 'analyze', 'sources': fo}); keys.append((perm, split, fo))
+        res = ctx.replay(cmds)
+        for (perm, split, fo), r in zip(keys, res):
+            if 'panic' in r: v = 'panic'
+            elif 'parse_error' in r: return None, {'note': 'unit does not parse', 'r': r}
+            else:
+                v = []
+                for d in r.get('diagnostics', []):
+                    src = fo[int(d['file'][1:-3])] if re.fullmatch(r'f\d+\.st', d['file']) else ''
+                    v.append((d['code'], src.encode()[d['start']:d['end']].decode('utf-8', 'replace') if uname not in CODE_ONLY_UNITS else None))
+                v = tuple(sorted(v))
+            seen.setdefault(v, (perm, split))
+        return len(seen) > 1, {'unit': uname, 'distinct_results': [{'result': str(v)[:200], 'first_seen_with_order': list(o[0]), 'files': list(o[1])} for v, o in list(seen.items())[:4]]}
+    return rp
+
+@kernel('K5 analyze.result_independent_of_order_and_partition')
+def k5(ctx, kr):
+    global _CTX
+    _CTX = ctx
+    names = list(UNITS)
+    kr.bounds = ('compilation units %s (2-3 top-level declarations each, valid units and units with exactly one fault): parse_program + stages::analyze on the MIR for every order of the declarations, every split of the sequence into one or two files, '
+                 'and every order petgraph::toposort may return for unrelated declarations (nondeterministic tie-break): the set of (problem code, text under the primary label) is the same on every path' % names)
+    jobs = []
+    for u in names:
+        k = len(UNITS[u])
+        for perm in itertools.permutations(range(k)):
+            for split in _splits(k): jobs.append((u, perm, split))
+    verd = {u: {} for u in names}
+    for part in par_map(_k5_job, jobs):
+        for v, w in part.verdicts.items(): verd[part.uname].setdefault(v, w)
+        merge_part(kr, part)
+    for u in names:
+        if len(verd[u]) > 1:
+            items = list(verd[u].items())
+            kr.findings.append(Finding('C06/K5/%s/result-depends-on-order-or-partition' % u,
+                'unit %s: %d different results, e.g. %s with declaration order %s in files %s, but %s with order %s in files %s' % (u, len(items), list(items[0][0])[:2] or 'success', list(items[0][1][0]), list(items[0][1][1]),
+                    list(items[1][0])[:2] or 'success', list(items[1][1][0]), list(items[1][1][1])), {'unit': u, 'results': [str(i[0])[:200] for i in items[:4]]}, replay=_replay_order_units(u)))
+        elif len(kr.validate) < 2: kr.validate.append(('order_units', (u,)))
+        if len(kr.samples) < 3 and verd[u]: kr.samples.append({'unit': u, 'result': str(list(verd[u])[0])[:160]})
+    P = ctx.program()
+    kr.functions = fn_paths(P, getattr(kr, '_enc', set()))[:150]
+    kr.exhaustive = True
+    kr.outside = ['units with more than three declarations or more than two files; hash order of the project map (K1)']
+
+KERNELS = [k1, k2, k3, k4, k5]
